@@ -13,7 +13,7 @@ sys.path.insert(0, os.path.dirname(os.path.abspath(__file__)))
 import dlib  # noqa: E402
 
 from traits.api import (  # noqa: E402
-    Any, ComparisonMode, Event, Trait, HasTraits, TraitError, TraitType, Undefined, Uninitialized, observe, on_trait_change,
+    Any, ComparisonMode, Event, Instance, Int, List, PrototypedFrom, Range, Trait, HasTraits, TraitError, TraitType, Undefined, Uninitialized, observe, on_trait_change,
     pop_exception_handler, push_exception_handler)
 from traits.observation import api as obs_api  # noqa: E402
 
@@ -82,7 +82,7 @@ class Marker:
 
 # the value pool; index = atom
 POOL = [Eq(1), Eq(1), Eq(2), float("nan"), float("nan"), EqRaises(), None, [1], [1], Marker(), Marker(), Incoherent(),
-        0, 0.0, ArrayLike(), BadRepr()]
+        0, 0.0, ArrayLike(), BadRepr(), 3, 5, 7, 99]
 REJ, ALIAS = 9, 10            # pool[REJ] is rejected by the trait, pool[ALIAS] is converted to pool[0]
 MODES = {"none": ComparisonMode.none, "identity": ComparisonMode.identity, "equality": ComparisonMode.equality}
 
@@ -205,6 +205,10 @@ def make_class(kind, mode, default, statics, orig=False, variant="", build="", s
             _shared[key] = ct
         ct = _shared[key[:-2] + (False, subclass)]
         ns = {"x": ct, "y": ct}
+    elif variant == "drange":
+        # Range with DYNAMIC bounds: a property-like trait (BaseRange._get_value / _set_value, trait_types.py l.1890-1917)
+        # that keeps its value in __dict__["_traits_cache_x"] and notifies through trait_property_changed when value != old
+        ns = {"x": Range(low="lo", high="hi", value=5), "lo": Int(0), "hi": Int(10), "y": Int(0)}
     else:
         ns = {"x": make_trait(kind, mode, default, orig, variant), "y": make_trait(kind, mode, default, orig, variant)}
     ns["e"] = Event()                 # another trait of another kind on the same object (same anytrait wrapper)
@@ -309,10 +313,49 @@ class MethodOwner:
         fire(self.hid, event.old, event.new)
 
 
+class Owner(HasTraits):
+    """Holds the object under test in a List: handlers can then be registered THROUGH it with an extended name."""
+    members = List(Instance(HasTraits))
+
+
+def make_otcx(hid):
+    def f(obj, name, old, new):
+        if name == "x" and obj is CUR["a"]:      # 'members.x' also reports changes of `members` itself: not ours
+            fire(hid, old, new)
+    return f
+
+
+def make_obsx(hid):
+    def f(event):
+        if event.object is CUR["a"]:
+            fire(hid, event.old, event.new)
+    return f
+
+
+def owner():
+    if "owner" not in CUR:
+        other = type(CUR["a"])()
+        CUR["owner"] = Owner(members=[CUR["a"], other])
+        CUR["other"] = other
+    return CUR["owner"]
+
+
 def attach(kind, hid, remove=False):
     """Register (or remove) handler `hid` of the given kind on trait x of the object under test."""
     a, reg = CUR["a"], CUR["reg"]
     base = kind.replace("_once", "")
+    if base in ("otcx", "obsx"):
+        # registered on the OWNER: legacy extended name through the list / observe expression through the list items
+        if not remove:
+            reg[hid] = make_otcx(hid) if base == "otcx" else make_obsx(hid)
+            CUR["live"].add(hid)
+        else:
+            CUR["live"].discard(hid)
+        if base == "otcx":
+            owner().on_trait_change(reg[hid], "members.x", remove=remove)
+        else:
+            owner().observe(reg[hid], "members:items:x", remove=remove)
+        return
     if not remove:
         reg[hid] = (make_otc(hid) if base == "otc" else make_otcany(hid) if base == "otcany" else
                     make_obs(hid) if base == "obs" else MethodOwner(hid))
@@ -334,7 +377,64 @@ def attach(kind, hid, remove=False):
         raise ValueError(kind)
 
 
+class Style(HasTraits):
+    caption = Any()                   # None = POOL[6] to start with
+
+
+_proto_classes = {}
+
+
+def proto_class(statics):
+    """class with x = PrototypedFrom("style", prefix="caption"): x mirrors style.caption until a local value is assigned."""
+    key = tuple(sorted(statics))
+    if key not in _proto_classes:
+        ns = {"style": Instance(Style, ()), "x": PrototypedFrom("style", prefix="caption")}
+        if "any" in statics:
+            def _anytrait_changed(self, name, old, new):
+                if name == "x":
+                    record(0, old, new)
+            ns["_anytrait_changed"] = _anytrait_changed
+        if "changed" in statics:
+            def _x_changed(self, old, new):
+                record(1, old, new)
+            ns["_x_changed"] = _x_changed
+        _proto_classes[key] = type(HasTraits)("L", (HasTraits,), ns)
+    return _proto_classes[key]
+
+
+def run_proto_case(case):
+    a = proto_class(case["statics"])()
+    del FRESH[:]
+    RAISES.clear()
+    CUR.clear()
+    CUR.update(a=a, reg={}, kinds={}, live=set())
+    REACT.clear()
+    for i, m in enumerate(case["dyn"]):
+        CUR["kinds"][10 + i] = m
+        attach(m, 10 + i)
+    out = []
+    for op in case["ops"]:
+        del LOG[:]
+        try:
+            if op[0] == "Assign":
+                a.x = POOL[op[1]]
+            elif op[0] == "Delete":
+                del a.x
+            elif op[0] == "Proto":
+                a.style.caption = POOL[op[1]]
+            else:
+                a.x
+            o = "Ok"
+        except Exception as e:  # noqa: BLE001
+            o = "Other:" + type(e).__name__
+        slot = a.__dict__.get("x", Marker)
+        out.append({"out": o, "slot": None if slot is Marker else atom(slot), "read": atom(a.x), "calls": [list(c) for c in LOG]})
+    return out
+
+
 def run_case(case):
+    if case.get("scenario") == "proto":
+        return run_proto_case(case)
     a = make_class(case["kind"], case["mode"], case["default"], case["statics"], case.get("orig", False),
                    case.get("variant", ""), case.get("build", ""), subclass=bool(case.get("subclass")))()
     del FRESH[:]
@@ -372,8 +472,18 @@ def run_case(case):
             elif op[0] == "Other":             # another trait of the same object: the Event e, or the sibling attribute y
                 if op[1] == "e":
                     a.e = POOL[2]
+                elif op[1] == "y":
+                    a.y = POOL[12] if case.get("variant") == "drange" else POOL[2]
+                elif op[1] == "reassign-reversed":     # the owner's list is re-assigned with the same objects
+                    owner().members = list(reversed(owner().members))
+                elif op[1] == "reassign-same-order":
+                    owner().members = list(owner().members)
+                elif op[1] == "sort-in-place":
+                    owner().members.sort(key=id)
+                elif op[1] == "reverse-in-place":
+                    owner().members.reverse()
                 else:
-                    a.y = POOL[2]
+                    raise ValueError(op)
             elif op[0] == "SetMode":           # reconfigure the (instance) trait at run time
                 a._trait("x", 2).comparison_mode = MODES[op[1]]
             elif op[0] == "Notify":            # obj._trait_change_notify(False / True)
@@ -394,7 +504,7 @@ def run_case(case):
             o = "AttributeError"
         except Exception as e:  # noqa: BLE001
             o = "Other:" + type(e).__name__
-        slot = a.__dict__.get("x", Marker)
+        slot = a.__dict__.get("_traits_cache_x" if case.get("variant") == "drange" else "x", Marker)
         out.append({"out": o, "slot": None if slot is Marker else atom(slot), "calls": [list(c) for c in LOG],
                     "sink": [list(c) for c in SINK]})
     return out
